@@ -82,7 +82,7 @@ type Annot struct { // things attached to a cut or a loop head
 	BackInv    []EnsuresClause // asserted only when the loop head is reached through a back edge (end of an iteration)
 	Derive     []EnsuresClause // proved after havoc from the assumed invariants (small VCs), then assumed
 	GhostPost  []GhostStmt     // ghost updates after havoc/assume
-	Assumes    []*SpecExpr // only allowed with explicit "assumed" justification; listed in evidence
+	Assumes    []*SpecExpr     // only allowed with explicit "assumed" justification; listed in evidence
 }
 
 type Cut struct {
@@ -95,32 +95,32 @@ type Cut struct {
 }
 
 type Contract struct {
-	Func     string
-	File     string
-	Line     int
-	Layer    string
-	Tags     string
-	Requires []*SpecExpr
-	Ensures  []EnsuresClause
-	Modifies []string
-	HasMod   bool
-	Alias    string
-	Assumed  string
-	Ghosts   []GhostStmt
-	Cuts     []*Cut
-	Loops    map[int]*Annot
-	Options  map[string]string
-	Pure     bool // "pure": no modifies at all
+	Func        string
+	File        string
+	Line        int
+	Layer       string
+	Tags        string
+	Requires    []*SpecExpr
+	Ensures     []EnsuresClause
+	Modifies    []string
+	HasMod      bool
+	Alias       string
+	Assumed     string
+	Ghosts      []GhostStmt
+	Cuts        []*Cut
+	Loops       map[int]*Annot
+	Options     map[string]string
+	Pure        bool // "pure": no modifies at all
 	EntryLemmas []LemmaCall
 	GhostFinal  []GhostStmt
 	SMT         []string          // raw SMT-LIB commands (recursive specification functions)
 	SMTFuns     map[string]string // function name -> result sort
-	Nullable    []string // pointer-typed cells that may be nil at entry
+	Nullable    []string          // pointer-typed cells that may be nil at entry
 	GhostParams []string
-	Lets        []GhostStmt // entry parametrisation: lvalue = expr (substituted into the entry state)
-	Scenarios   []*Scenario // alternative entry parametrisations (e.g. a point at infinity with arbitrary X, Y)
+	Lets        []GhostStmt               // entry parametrisation: lvalue = expr (substituted into the entry state)
+	Scenarios   []*Scenario               // alternative entry parametrisations (e.g. a point at infinity with arbitrary X, Y)
 	Inner       map[string]map[int]*Annot // loop annotations of inlined functions (closures), by function name
-	Theorem     bool        // a block of pure SMT goals (no Go function): inductive lemmas used as axioms by contracts
+	Theorem     bool                      // a block of pure SMT goals (no Go function): inductive lemmas used as axioms by contracts
 	Goals       []TheoremGoal
 	Modulo      []GhostStmt // hypotheses "monomial = polynomial" used as rewrite rules by eqmod (ideal membership)
 }
